@@ -139,6 +139,47 @@ def routerStep (q : Queues) : ROp → Queues
 
 def routerRun (ops : List ROp) : Queues := ops.foldl routerStep []
 
+/-! ### the router thread's read loop (`CPXRouter.run`): exceptions raised by `readPacket` -/
+
+/-- Python class name of what `readPacket` raised -/
+def errClassName : Err → String
+  | .version => "RuntimeError"
+  | .py .valueError => "ValueError"
+  | .py .structError => "struct.error"
+  | .py e => toString e
+  | .blocked => "blocked"
+
+/-- does the `except` clause of `CPXRouter.run` (handler class names from Gen) catch this error?
+(`Exception` catches every class `readPacket` can raise.) -/
+def handlerCatches (handlers : List String) (e : Err) : Bool :=
+  handlers.contains "Exception" || handlers.contains (errClassName e)
+
+def pktTag (p : Packet) : Nat :=
+  match p.data with
+  | [] => 256
+  | b :: _ => b.toNat
+
+/-- one loop iteration per read result; an uncaught exception kills the thread (nothing after it is routed).
+Returns the queues and whether the thread is still alive. -/
+def routerReads (handlers : List String) : List (Except Err Packet) → Queues → Queues × Bool
+  | [], q => (q, true)
+  | .ok p :: rest, q => routerReads handlers rest (routerStep q (.pkt p.fn (pktTag p)))
+  | .error e :: rest, q =>
+    if handlerCatches handlers e then routerReads handlers rest q else (q, false)
+
+/-- the successive results of `readPacket` on a socket, until it would block (fuel = a bound on the reads) -/
+def sockReads : Nat → Sock → List (Except Err Packet)
+  | 0, _ => []
+  | fuel + 1, s =>
+    match readPacket s with
+    | (.ok (p, s'), _) => .ok p :: sockReads fuel s'
+    | (.error .blocked, _) => []
+    | (.error e, s') => .error e :: sockReads fuel s'
+
+/-- `CPXRouter.run` on a byte stream with the queues of `regs` already created -/
+def routerStream (regs : List Nat) (s : Sock) : Queues × Bool :=
+  routerReads Gen.C18.routerHandlers (sockReads (s.flatten.length + 1) s) (routerRun (regs.map ROp.reg))
+
 /-! ### CRTP over CPX (TcpDriver) -/
 
 def cpxTargetSTM32 : Nat := 1
